@@ -83,9 +83,22 @@ pub fn catch<T>(f: impl FnOnce() -> T) -> Result<T, String> {
     }
 }
 
+thread_local! { static PANIC_SITE: std::cell::RefCell<Option<String>> = const { std::cell::RefCell::new(None) }; }
+
+/// The source file (relative to the repository) of the last panic on this thread.
+pub fn take_panic_site() -> Option<String> { PANIC_SITE.with(|s| s.borrow_mut().take()) }
+
 pub fn quiet_panics() {
-    if std::env::var("VERIF_LOUD").is_ok() { return; }
-    std::panic::set_hook(Box::new(|_| {}));
+    let loud = std::env::var("VERIF_LOUD").is_ok();
+    let default_hook = std::panic::take_hook();
+    std::panic::set_hook(Box::new(move |info| {
+        if let Some(l) = info.location() {
+            let f = l.file();
+            let f = f.strip_prefix("/repo/").unwrap_or(f);
+            PANIC_SITE.with(|s| *s.borrow_mut() = Some(format!("{}:{}", f, l.line())));
+        }
+        if loud { default_hook(info); }
+    }));
 }
 
 /// Front end only: preprocess + parse + type check a single in-memory file.
